@@ -128,7 +128,7 @@ def run(ctx):
     if ctx.quick():
         args = ["-gen", "20", "-cap", "300", "-coq", "800", "-life", "150", "-async", "40"]
     else:
-        args = ["-gen", "150", "-cap", "1500", "-coq", "24000", "-life", "3000", "-async", "400"]
+        args = ["-gen", "150", "-cap", "1500", "-coq", "9000", "-life", "1500", "-async", "400"]
     lines = ctx.jsonl([hx, "-seed", str(ctx.seed)] + args, timeout=800)
     shapes, dist = {}, {}
     terms, refs = [], []
